@@ -4162,7 +4162,14 @@ class AsBoolean(WrapsColumnExpression[bool], UnaryExpression[bool]):
     def wrapped_column_expression(self):
         return self.element
 
-    def self_group(self, against: Optional[OperatorType] = None) -> Self:
+    def self_group(
+        self, against: Optional[OperatorType] = None
+    ) -> Union[Self, Grouping[bool]]:
+        # may render as "x = 0" / "NOT x" depending on dialect
+        if against is not None and operators.is_precedent(
+            operators.eq, against
+        ):
+            return Grouping(self)
         return self
 
     def _negate(self):
